@@ -343,7 +343,12 @@ class PeerBase:
                     self.log('gex-request-bad', c.idx, n=len(payload))
                     raise _Abort()
                 mn, pref, mx = struct.unpack('>III', payload[1:13])
-                ans = moduli_answer(s.get('gex'), mn, pref, mx)
+                gexpol = s.get('gex')
+                if s.get('gex_by_alg'):
+                    # a moduli policy per group-exchange algorithm (the one this connection negotiated)
+                    asked = c.client_kex['kex'][0].decode('latin-1') if c.client_kex and c.client_kex['kex'] else ''
+                    gexpol = s['gex_by_alg'].get(asked, gexpol)
+                ans = moduli_answer(gexpol, mn, pref, mx)
                 c.last_gex = (mn, pref, mx)
                 self.log('gex-request', c.idx, min=mn, pref=pref, max=mx, answer=ans)
                 if ans is None:
